@@ -47,3 +47,9 @@ Theorem allocation_obeys_register_file : forall rf is liveouts al,
   /\ (forall i r, In i is -> In r (instr_registers i) -> virt (rid r) -> is_Some (al !! rid r)).
 Proof. exact allocation_obeys_register_file_lemma. Qed.
 Print Assumptions allocation_obeys_register_file.
+
+(* Go's Allocate() loops until every register is allocated; the model bounds the number of rounds by
+   the number of registers to allocate plus one, and that bound is never the reason for an error *)
+Theorem allocator_rounds_bounded : forall a, awf a -> a_allocate (S (size (a_poss a))) a <> Err EOutOfFuel.
+Proof. exact allocate_never_out_of_fuel. Qed.
+Print Assumptions allocator_rounds_bounded.
